@@ -30,6 +30,7 @@ KIND = {
     8: "a one-shot listener (handler returned false) was called more than once (by dispatches of different sources)",
     9: "a listener was called after its RemoveListener had returned (by a dispatch whose snapshot preceded the removal)",
     10: "malformed history",
+    11: "Listeners(ev) returned fewer listeners than were certainly registered during the whole call (persistent, registration returned before the call began, removal not requested before it returned)",
 }
 
 OPN = {0: "add", 1: "add-once", 2: "remove", 3: "count"}
